@@ -70,13 +70,10 @@ def run(ctx):
                       "rule's template." % (body.dbg.get(R.timer), len(M.segments)))
     # the loop stops the timer when the mapper's step says so: that every key change the mapper acts on says Disabled
     # (or starts a new repeat) is C09's table; re-run here because `stop on any key change` rests on it
-    from ..report import Check
-    from ..ctx import Ctx
-    from . import c09
-    sub = Check("C09", quiet=True)
-    c09.run(Ctx(ctx.F, sub, ctx.tier))
-    bad = [v["key"] for v in sub.violations]
-    ck.ob("C11-s1", "-", "every-acted-on-key-event-cancels-or-restarts-repeating(C09-rules-hold)", not bad, detail=None if not bad else bad[0][:220])
+    from .. import premises
+    if not getattr(ctx, "no_premises", False):
+        bad = premises.own_violations(ctx, "C09")
+        ck.ob("C11-s1", "-", "every-acted-on-key-event-cancels-or-restarts-repeating(C09-rules-hold)", not bad, detail=None if not bad else bad[0][:220])
     t0 = R.var0(R.timer)
 
     # ---- R1 poll timeout ------------------------------------------------------
